@@ -397,6 +397,7 @@ class Exec:
             self.heap_fields = {}
             self.boxes = {}
             self.unknown_feasibility = False
+            self.ghost = {}
             self.imprecise = None
             self.enum_seen = {}
             self.path_token = object()
@@ -771,6 +772,9 @@ class Exec:
             self.oblige(f"inv.init.{ordn}.{k}", self.spec_bool(clause, frame, env_extra), clause)
         # havoc
         self.havoc_loop(st, frame, spec)
+        for gname, gv in list(self.ghost.items()):
+            gk = "int" if z3.is_int(gv) else ("bool" if z3.is_bool(gv) else "any")
+            self.ghost[gname] = self.fresh(f"ghost.{gname}", gk).t
         if kind == "for":
             i = self.fresh(idx_name, "int")
             frame.locals[idx_name] = i
@@ -1106,6 +1110,9 @@ class Exec:
         v = lz.alts[choice].fresh(self, lz.name, fixed=True)
         if isinstance(v, SLazy):
             v = self.resolve_lazy(v)
+        if isinstance(v, SAny) and any(getattr(a, "value", 0) is None for a in lz.alts):
+            from .intrinsics import F_is_none
+            self.assume(z3.Not(F_is_none(v.t)))   # the non-None alternative of an Optional
         lz.resolved = (self.path_token, v)
         return v
 
@@ -1725,6 +1732,8 @@ class Exec:
             self.trace_event("call", mname, tuple(args[1:] if self_val is not None else args))
             self.used_intrinsics.add(f"dynamic dispatch {mname}(): opaque call (any subclass), result unconstrained; recorded in the ghost call trace")
             rt = self.contract.opaque_methods[mname]
+            if callable(rt) and not hasattr(rt, "fresh"):
+                return rt(self, self_val if self_val is not None else (args[0] if args else None), mname, list(args[1:] if self_val is not None else args))
             return rt.fresh(self, f"{mname}_result") if rt is not None else None
         # decorators
         decos = [] if isinstance(fref.node, ast.Lambda) else fref.node.decorator_list
